@@ -434,5 +434,61 @@ theorem run_dense (D : OdeDenseHyp E) (recs : List (StepRec ℚ)) (hrecs : ∀ r
       exact ih (fun x hx => hrecs x (List.mem_cons_of_mem _ hx)) _
         (H.step_inv r (hrecs r List.mem_cons_self) s I hdn').1 (H.step_dense D r (hrecs r List.mem_cons_self) s I O hdn')
 
+/-! ### order and step-size selection -/
+
+omit H in
+/-- the order proposed after a success differs from the current one by at most one and stays in `[1, maxk]` -/
+theorem select_order (absh : ℚ) (k : Nat) (p : Temps ℚ) (hk : 1 ≤ k ∧ k ≤ E.maxk) :
+    1 ≤ (E.select absh k p).2 ∧ (E.select absh k p).2 ≤ E.maxk ∧ (E.select absh k p).2 ≤ k + 1 ∧ k ≤ (E.select absh k p).2 + 1 := by
+  have hraw : 1 ≤ (E.selectRaw absh k p).2 ∧ (E.selectRaw absh k p).2 ≤ E.maxk ∧ (E.selectRaw absh k p).2 ≤ k + 1 ∧ k ≤ (E.selectRaw absh k p).2 + 1 := by
+    unfold OdeEnv.selectRaw
+    cases p.tempm1 <;> cases p.tempp1 <;> (try simp only) <;> (repeat' split) <;> (try simp only) <;> omega
+  unfold OdeEnv.select
+  split
+  · exact hraw
+  · (try simp only); omega
+
+omit H in
+/-- a failed error test lowers the order by at most one, never below 1 -/
+theorem retry_order (hmin : ℚ) (w : Work ℚ) (e : Inner ℚ) (hk : 1 ≤ w.k) :
+    1 ≤ (E.retry hmin w e).k ∧ (E.retry hmin w e).k ≤ w.k ∧ w.k ≤ (E.retry hmin w e).k + 1 := by
+  cases e with
+  | slowJ => simp [OdeEnv.retry]; omega
+  | slowShrink => simp only [OdeEnv.retry]; (repeat' split) <;> (try simp only) <;> omega
+  | errFail f g =>
+    simp only [OdeEnv.retry]
+    split
+    · omega
+    · split
+      · (try simp only); omega
+      · (try simp only)
+        split
+        · unfold OdeEnv.firstFailure
+          cases g <;> (try simp only) <;> (repeat' split) <;> (try simp only) <;> omega
+        · (try simp only); omega
+
+/-- the proposal after a success enlarges the step by at most the factor 10 -/
+theorem select_growth (absh : ℚ) (hp : 0 < absh) (k : Nat) (p : Temps ℚ) (hc : E.c10 = 10) (hc1 : E.c01 = 1 / 10) :
+    (E.select absh k p).1 ≤ 10 * absh := by
+  have hdiv : ∀ a b : ℚ, E.O.div a b = a / b := by intro a b; rw [H.hO]; rfl
+  have hfrom : ∀ temp : ℚ, E.hFrom absh temp ≤ 10 * absh := by
+    intro temp
+    unfold OdeEnv.hFrom
+    rw [H.lt_iff, hc, hc1, H.mul_eq, hdiv]
+    split
+    · rename_i h
+      have ht : (1 : ℚ) / 10 < temp := by simpa using h
+      have htp : 0 < temp := by linarith
+      rw [div_le_iff₀ htp]
+      nlinarith
+    · exact le_refl _
+  have hraw : (E.selectRaw absh k p).1 ≤ 10 * absh := by
+    unfold OdeEnv.selectRaw
+    cases p.tempm1 <;> cases p.tempp1 <;> (try simp only) <;> (repeat' split) <;> (try simp only) <;> exact hfrom _
+  unfold OdeEnv.select
+  split
+  · exact hraw
+  · (try simp only); linarith
+
 end OdeHyp
 end Solverz
